@@ -329,7 +329,7 @@ fn replay(case: &str) {
     let stream = it.next().unwrap_or("");
     let mut args: Vec<&str> = it.collect();
     if args.last().map_or(false, |a| a.starts_with("A=")) { args.pop(); }
-    let mut run = Run::new("c07", "/tmp/c07-replay");
+    let mut run = Run::new("c07", &crate::scratch("c07-replay"));
     let mut done = false;
     for t in all_targets() {
         if t.stream == stream && args.len() == 1 {
@@ -352,10 +352,10 @@ fn replay(case: &str) {
     else if args.len() != 1 || !all_targets().iter().any(|t| t.stream == stream) {
         use std::io::Write;
         let _ = run.imp.flush();
-        if let Ok(t) = std::fs::read_to_string("/tmp/c07-replay/impl.txt") { for l in t.lines() { println!("impl: {}", l.splitn(4, ' ').nth(3).unwrap_or("")); } }
+        if let Ok(t) = std::fs::read_to_string(format!("{}/impl.txt", crate::scratch("c07-replay"))) { for l in t.lines() { println!("impl: {}", l.splitn(4, ' ').nth(3).unwrap_or("")); } }
     }
     for f in &run.fails { println!("ORACLE-FAIL {} :: {}", f.signature, f.detail); }
-    let _ = std::fs::remove_dir_all("/tmp/c07-replay");
+    let _ = std::fs::remove_dir_all(crate::scratch("c07-replay"));
 }
 
 pub fn run(args: &Args) {
